@@ -274,7 +274,7 @@ def runHist (topo kss opsS cfg req tbl nSamples impl : String) : String :=
       | .learn ks tb _ => some (ks, tb) | .declare ks tb => some (ks, tb) | .refresh _ => none)).eraseDups
     let kssMeta : List (String × Bool × List String) := ks.zipIdx.map (fun (_, i) =>
       (ksName i, declared.any (·.1 == i), (declared.filter (·.1 == i)).map (fun d => tblName d.2)))
-    let inf := ((RState.init kssMeta (peersWithAddr ps0)).run kssMeta (ops.filterMap HOp.toStateOp)).tablets
+    let inf := ((RState.init kssMeta (peersWithAddr ps0)).run kssMeta (ops.filterMap HOp.toStateOp)).info
     let psFinal := topos.getLast?.getD ps0
     let rc0 := mkRCluster psFinal ks []
     let rc : RCluster := { rc0 with
